@@ -393,6 +393,11 @@ func c19Count(c *Ctx, a *guards.FuncAn, enc *ssa.Function) {
 		got := "len(result) - (number of data rows) - redundancy >= 0 from " + a.FactsText(b, goal)
 		if !ok2 {
 			got = "cannot show " + goal.String() + " >= 0; facts: " + a.FactsText(b, goal)
+			if why, un := a.Untracked(b, goal); un {
+				// the rows are built by a worker whose result length no summary describes: not a verdict
+				r.Unknown("R3.count", key+"/return", P.Rel(ret.Pos()), "len(result) >= len(data)/fragmentSize + redundancy on a successful return", "depends on "+why)
+				continue
+			}
 		}
 		r.Check(ok2, "R3.count", key+"/return", P.Rel(ret.Pos()), "len(result) >= len(data)/fragmentSize + redundancy on a successful return", got, true)
 	}
